@@ -376,7 +376,17 @@ func E5Reserved(c *core.Ctx, r *core.Report) {
 		sizeExpr = types.ExprString(v)
 	}
 	check("xref count == trailer Size", xrefCount != "" && xrefCount == sizeExpr, xrefCount, fmt.Sprintf("xref section announces `%s` entries but the trailer's Size is `%s`", xrefCount, sizeExpr), trailer.Pos())
-	if cat := defs["catalog"]; cat != nil {
+	var cat *ast.CompositeLit
+	for _, cl := range defs {
+		if t := dictEntry(info, cl, "Type"); t != nil {
+			if tc, ok := t.(*ast.CallExpr); ok && len(tc.Args) == 1 {
+				if sv, ok := constString(info, tc.Args[0]); ok && sv == "Catalog" {
+					cat = cl
+				}
+			}
+		}
+	}
+	if cat != nil {
 		if v := dictEntry(info, cat, "Pages"); v != nil {
 			n, ok := refNum(info, v)
 			check("catalog Pages", ok && n == nums["Pages"], fmt.Sprintf("Pages=%d", n), fmt.Sprintf("catalog /Pages refers to object %d but the page tree is written as object %d", n, nums["Pages"]), v.Pos())
@@ -384,12 +394,7 @@ func E5Reserved(c *core.Ctx, r *core.Report) {
 			check("catalog Pages", false, "", "catalog has no Pages entry", cat.Pos())
 		}
 	} else {
-		for name, cl := range defs {
-			if t := dictEntry(info, cl, "Pages"); t != nil {
-				n, ok := refNum(info, t)
-				check("catalog Pages", ok && n == nums["Pages"], fmt.Sprintf("Pages=%d", n), fmt.Sprintf("%s /Pages refers to object %d but the page tree is written as object %d", name, n, nums["Pages"]), t.Pos())
-			}
-		}
+		check("catalog Pages", false, "", "catalog dictionary literal not found", fd.Pos())
 	}
 	// every writePage(parent) call passes the page-tree number
 	for _, f2 := range core.AllFuncDecls(p) {
